@@ -136,6 +136,8 @@ impl ProcessorNode {
     }
 
     pub fn add_cache(mut self, c: &CacheHandle) -> Self {
+        // The node length is a single byte.
+        assert!(self.len() + core::mem::size_of::<u32>() <= u8::MAX as usize);
         self.resources.push(*c);
         self
     }
